@@ -44,26 +44,29 @@ Print Assumptions C06_cancel_reaches_everything.
 (* ---- StreamItemQueue: control flags, bounded entries queue (producer blocked in push / parked on its
    final entry, _settle_parked), failure of the source incl. a cancellation turned into an exception,
    abort at any point.  Steps between two QTick events happen without the loop running.
+   _partial: the machine has no event for a producer that swallows its cancellation and goes on pushing or
+   finishing (it only has the cancellation turned into an exception), and does not model the content of the
+   entries (batching); the runtime statement of the property is decided by exploration.
    The abort callback (closing the source) runs at most once on every trace. *)
-Theorem C06_source_closed_at_most_once : forall c es, (q_cb_calls (qrun c (qinit c) es) <= 1)%nat.
+Theorem C06_source_closed_at_most_once_partial : forall c es, (q_cb_calls (qrun c (qinit c) es) <= 1)%nat.
 Proof. exact cb_at_most_once. Qed.
-Print Assumptions C06_source_closed_at_most_once.
+Print Assumptions C06_source_closed_at_most_once_partial.
 
 (* after any trace, once the loop has settled: exactly one close if the trace contains an abort or
    failure that took effect before the source finished; none if the source finished by itself *)
-Theorem C06_source_closed_exactly_once : forall c es,
+Theorem C06_source_closed_exactly_once_partial : forall c es,
   let s := settle c (qrun c (qinit c) es) in
   (stopped_early s = true -> q_cb_calls s = if q_has_cb c then 1%nat else 0%nat) /\
   (q_finished s = true -> q_cb_calls s = 0%nat).
 Proof. exact cb_exactly_once. Qed.
-Print Assumptions C06_source_closed_exactly_once.
+Print Assumptions C06_source_closed_exactly_once_partial.
 
 (* model-level quiescence: after ANY trace, abort() followed by one settling of the loop leaves no producer
    task (running, blocked or parked), no pending item future and no cleanup continuation *)
-Theorem C06_no_pending_after_quiescence : forall c es,
+Theorem C06_no_pending_after_quiescence_partial : forall c es,
   let s := qrun c (qinit c) es in quiescent (settle c (fst (do_qabort c s))) = true.
 Proof. exact abort_then_settle_quiescent. Qed.
-Print Assumptions C06_no_pending_after_quiescence.
+Print Assumptions C06_no_pending_after_quiescence_partial.
 
 (* ---- work-finished hook: on every interleaving of background work with the single call of
    run_async_work_finished_hook the hook fires at most once; once no background work is left and the
